@@ -182,6 +182,7 @@ class Pkg(object):
         if os.environ.get("SA_NO_CANON") != "1":
             from .rename import canonical_names
             self.renames = canonical_names({name: m.tree for name, m in self.mods.items()})
+            _canon.struct_objects({name: m.tree for name, m in self.mods.items()})
         _canon.SIGS.clear()
         _canon.SIGS.update(_canon.build_signatures([m.tree for m in self.mods.values()]))
         for mod in self.mods.values():
